@@ -66,6 +66,7 @@ def worker_main(pid: str, tier: str, seed: int, shard: int, nshards: int, out_pa
     stats: Counter = Counter()
     sigs: set = set()
     evaluations = 0
+    extra_distinct = 0
     ncases = 0
     samples: List[Any] = []
     viols: Dict[str, dict] = {}
@@ -84,6 +85,7 @@ def worker_main(pid: str, tier: str, seed: int, shard: int, nshards: int, out_pa
                 break
             continue
         evaluations += res.get("evals", 1)
+        extra_distinct += res.get("distinct", 0)
         for extra in res.get("sigs", ()):
             sigs.add(sig_hash(extra))
         if res.get("nontrivial"):
@@ -100,6 +102,7 @@ def worker_main(pid: str, tier: str, seed: int, shard: int, nshards: int, out_pa
     result = {
         "evaluations": evaluations,
         "sigs": sorted(sigs),
+        "extra_distinct": extra_distinct,
         "stats": dict(stats),
         "samples": samples,
         "violations": viols,
@@ -190,6 +193,7 @@ def run_check(pid: str, tier: str, seed: int, workers: int = 0) -> int:
         os.unlink(out)
         merged["evaluations"] += res["evaluations"]
         merged["sigs"].update(res["sigs"])
+        merged["extra_distinct"] = merged.get("extra_distinct", 0) + res.get("extra_distinct", 0)
         merged["stats"].update(res["stats"])
         if len(merged["samples"]) < 8:
             merged["samples"].extend(res["samples"][:2])
@@ -227,7 +231,7 @@ def run_check(pid: str, tier: str, seed: int, workers: int = 0) -> int:
             lines.append(f"VIOLATION property={pid} replay={os.path.relpath(path, VERIF)}")
             lines.append(f"  key={key} count={merged['vcount'][key]} :: {wit['msg'][:300]}")
     wall = time.time() - t0
-    distinct = len(merged["sigs"])
+    distinct = len(merged["sigs"]) + merged.get("extra_distinct", 0)
     reach_out = {fn: {"reached": len(info["lines"]), "total": info["total"]} for fn, info in sorted(merged["reach"].items())}
     coverage = {
         "evaluations": merged["evaluations"],
